@@ -49,6 +49,12 @@ CHECKS = {
  "C14": dict(level=EX, design="§4 C14", technique="bounded-exhaustive enumeration of emitted assembly files; static lint of every label/operand/table per instruction form, GNU as acceptance and object-code read-back for x86-64, symbol-injection closure over generated names",
     text="Every file emitted for the AxCut and Fun families on the three backends is linted for label definedness/uniqueness, runtime-symbol clashes, operand ranges of the printed instruction forms and jump-table entry form; x86-64 files are assembled by GNU as and their tables read back from the object code; for each generated definition symbol the variant program with a user definition of that spelling is compiled and linted (iterated so that the injected name follows the generated numbering).",
     note="range tables written from the ISA manuals; GNU as stands in for yasm"),
+ "C15": dict(level=EX, design="§4 C15", technique="bounded-exhaustive enumeration of well-typed programs x 24+8 single-edit mutation classes x every applicable site; the real checker must accept the former and reject every mutant",
+    text="All programs of the Fun families and dedicated polymorphic/covariable/shadowing programs are accepted; every applicable site of every edit class (argument counts, wrong-type operand, unbound names of every sort, missing/extra/duplicated clauses, binders, type-argument arity in terms and in declarations, constructor at i64, cocase at data, duplicates of every declaration sort, variable for covariable) yields a tree that Program::check rejects.",
+    note="each edit is ill-typed by construction"),
+ "C16": dict(level=EX, design="§4 C16", technique="bounded-exhaustive enumeration of parser-accepted texts (every term form in every slot of every term form) x all (width, indent) configurations; reparse equality and idempotence on every distinct rendering",
+    text="For every accepted text and every configuration: parse(print(ast, cfg)) == ast and printing the result again is the identity; a slice runs through the real scc fmt --inplace.",
+    note="tree equality = the repository's derived PartialEq (spans ignored)"),
  "C20": dict(level=EX, design="§4 C20", technique="exhaustive enumeration over a boundary value set and all argument tuples/arities/wrong counts; io.c compiled unmodified into a harness; echo programs compiled by the real pipeline and run natively; AArch64 entry on the emulator",
     text="print_i64/println_i64 on every boundary value (decimal text, nothing else); every argument tuple over a value set with values beyond 32 bits for arities 0..5 natively (0..7 AArch64 on the emulator); every wrong argument count 0..7 reported without running; exit status = low 8 bits.",
     note="gcc/glibc of the sandbox"),
